@@ -428,7 +428,7 @@ class C13(Check):
             a, b = case["paths"]
             return ["P", os.path.normpath(a), os.path.join(a, b),
                     os.path.normpath(a if os.path.isabs(a) else os.path.join(b, a)),   # abspath with getcwd() = b
-                    os.path.basename(a), pathlib.Path(a).suffix, int(os.path.isabs(a))]
+                    os.path.basename(a), pathlib.Path(a).suffix, int(os.path.isabs(a)), os.path.splitext(a)[1]]
         from codebasin import config
         base = make_tree(case["tree"])
         dbdir = common.scratch() / "c13"
@@ -466,7 +466,7 @@ class C13(Check):
                 warns.append(["unsupported"])
             elif msg.startswith("No files found in compilation database"):
                 warns.append(["nofiles"])
-            elif msg.startswith("Unrecognized arguments") or "not recognized" in msg:
+            elif msg.startswith(("Unrecognized arguments", "Could not parse all arguments")) or "not recognized" in msg:
                 continue
             else:
                 warns.append(["other", msg[:60]])
@@ -716,22 +716,27 @@ class C13(Check):
 
     @staticmethod
     def inc_values(argv):
-        out = []
+        """-I/-isystem values as parse_args keeps them (a missing value stops the parse)."""
+        out, sysd = [], []
         j = 1
+        dash = lambda v: len(v) > 1 and v[0] == "-"
         while j < len(argv):
             t = argv[j]
             if t in ("-I", "-isystem"):
-                if j + 1 < len(argv):
-                    out.append(argv[j + 1])
+                if j + 1 >= len(argv) or dash(argv[j + 1]):
+                    break
+                (out if t == "-I" else sysd).append(argv[j + 1])
                 j += 2
-            elif t in ("-D", "-o", "-include", "-O"):
+            elif t in ("-D", "-o", "-include"):
+                if j + 1 >= len(argv) or dash(argv[j + 1]):
+                    break
                 j += 2
             elif t.startswith("-I"):
                 out.append(t[2:])
                 j += 1
             else:
                 j += 1
-        return out
+        return out + sysd          # -I directories first, then -isystem directories
 
     def extra_coverage(self):
         return {"input_distribution": self.stats.get("dist", {}), "gcc_oracle": self.stats.get("oracle", {}),
